@@ -4,6 +4,10 @@ import (
 	"errors"
 	"fmt"
 	"io"
+	"os"
+	"os/signal"
+	"sync"
+	"syscall"
 )
 
 // ErrInjected is the error simulated devices return when a fault fires.
@@ -331,4 +335,46 @@ func (w *simWriterRF) ReadFrom(src io.Reader) (int64, error) {
 			return total, rerr
 		}
 	}
+}
+
+// ---- a real file on a full disk -------------------------------------------------
+
+var ignoreXFSZ sync.Once
+
+// WithQuotaFile runs fn with a real *os.File as destination while the process's
+// file-size limit (RLIMIT_FSIZE) is quota bytes: the kernel accepts exactly
+// quota bytes into the file (a short write at the boundary) and fails every
+// write beyond with EFBIG - a full disk at an exact, replayable byte position,
+// for code that treats *os.File destinations specially. It returns what the
+// file holds afterwards. quota < 0 means no limit. The limit is process-wide,
+// so nothing else may write files while fn runs (workers are single-threaded
+// at this level; statistics and fail files are written outside).
+func (c *Ctx) WithQuotaFile(quota int, fn func(f *os.File)) (accepted []byte, err error) {
+	ignoreXFSZ.Do(func() { signal.Ignore(syscall.SIGXFSZ) })
+	f, err := os.CreateTemp(".", "quota-*")
+	if err != nil {
+		return nil, err
+	}
+	defer os.Remove(f.Name())
+	defer f.Close()
+	var old syscall.Rlimit
+	if quota >= 0 {
+		if err := syscall.Getrlimit(syscall.RLIMIT_FSIZE, &old); err != nil {
+			return nil, err
+		}
+		if err := syscall.Setrlimit(syscall.RLIMIT_FSIZE, &syscall.Rlimit{Cur: uint64(quota), Max: old.Max}); err != nil {
+			return nil, err
+		}
+		c.Fault("real-file-size-quota")
+	}
+	func() {
+		defer func() {
+			if quota >= 0 {
+				syscall.Setrlimit(syscall.RLIMIT_FSIZE, &old)
+			}
+		}()
+		fn(f)
+	}()
+	accepted, err = os.ReadFile(f.Name())
+	return accepted, err
 }
